@@ -1,10 +1,13 @@
 (* Extract_c01.v -- extraction of the C01 model (SidsCodec) to OCaml.  ExtrOcamlBasic only; Z, positive, nat, ascii,
    string stay extracted inductives.  No Extract Constant / Extract Inductive of our own. *)
 From Coq Require Import Extraction ExtrOcamlBasic.
-From CgnsV Require Import SidsCodec.
+From CgnsV Require Import SidsCodec Gen_C01.
 Extraction Language OCaml.
 Set Extraction KeepSingleton.
 Extraction "extracted/c01/model.ml" SidsCodec.exec SidsCodec.run SidsCodec.enc SidsCodec.dec SidsCodec.view
   SidsCodec.api_fill SidsCodec.wf SidsCodec.ctx0 SidsCodec.root0 SidsCodec.all_kinds SidsCodec.kind_name
   SidsCodec.all_fns SidsCodec.fn_returns_index SidsCodec.schema_ok SidsCodec.kind_names_distinct
-  SidsCodec.schema_rows SidsCodec.read_file SidsCodec.write_file SidsCodec.spec.
+  SidsCodec.schema_rows SidsCodec.read_file SidsCodec.write_file SidsCodec.spec
+  SidsCodec.labels_closed SidsCodec.open_wrows SidsCodec.schema_in_sources SidsCodec.unbacked_rows SidsCodec.enum_tables_match
+  Gen_C01.gen_writers Gen_C01.gen_readers Gen_C01.gen_enum_tables Gen_C01.gen_version_bytes Gen_C01.gen_nof_element_types
+  Gen_C01.gen_read_node_allocates.
